@@ -609,6 +609,47 @@ def rule_PL7(ctx, tier):
                     rr.ok("summary set written by %s" % shortfn(b.id))
                 else:
                     rr.fail("foreign-memory-writer:%s" % shortfn(b.id), "`%s` edits a tower's in-memory pending/invalid set directly (no DB partner)" % shortfn(b.id), where=b.line_of(bb))
+    # field write-sets of the in-memory summary: each mutator touches only its own fields; nobody replaces a summary
+    # wholesale (which would silently reset status / sets to their defaults)
+    allowed = {
+        "watchtower_plugin::TowerSummary::udpate": {"net_addr", "available_slots", "subscription_start", "subscription_expiry"},
+        WT + "set_tower_status": {"status"},
+        WT + "add_appointment_receipt": {"available_slots"},
+        WT + "flag_misbehaving_tower": {"status"},
+        WT + "add_pending_appointment": set(), WT + "remove_pending_appointment": set(), WT + "add_invalid_appointment": set(),
+        "watchtower_plugin::TowerInfo::set_misbehaving_proof": {"misbehaving_proof"},
+        PDBM + "load_towers": {"status"},   # loader: status reconstruction (checked by the sibling-agreement rule below)
+    }
+    summary_fields = {f["name"] for f in P.adts.get("watchtower_plugin::TowerSummary", {"variants": [{"fields": []}]})["variants"][0]["fields"]}
+    for b in P.bodies.values():
+        if not b.id.startswith(("watchtower_plugin::", "watchtower_client::")) or b.kind not in ("fn", "method", "closure", "coroutine"):
+            continue
+        if b.id.endswith(("::new", "::with_appointments", "::with_status", "::default")) or "::_::" in b.id:
+            continue
+        writes, whole = set(), False
+        for bb in b.rpo():
+            for st in b.blocks[bb]["s"]:
+                if st["k"] != "assign" or len(st["d"]) < 2:
+                    continue
+                base_ty = b.locals[st["d"][0]]["ty"]
+                if "TowerSummary" not in base_ty:
+                    continue
+                fl = [e for e in st["d"][1:] if e.startswith("f:")]
+                if fl and fl[-1][2:] in summary_fields:
+                    writes.add(fl[-1][2:])
+                elif not fl and st["d"][-1] == "*" and base_ty.startswith("&mut watchtower_plugin::TowerSummary"):
+                    whole = True
+        if not writes and not whole:
+            continue
+        al = allowed.get(b.id)
+        if whole:
+            rr.fail("summary-replaced:%s" % shortfn(b.id), "`%s` overwrites a whole TowerSummary (`*summary = ..`): status and the pending/invalid sets are rebuilt from defaults instead of being kept, so what listtowers reports no longer matches what is persisted" % shortfn(b.id), where=b.span)
+        elif al is None:
+            rr.fail("summary-foreign-field-writer:%s" % shortfn(b.id), "`%s` writes TowerSummary field(s) %s but is not one of the summary mutators" % (shortfn(b.id), sorted(writes)), where=b.span)
+        elif writes <= al:
+            rr.ok("%s writes only %s" % (shortfn(b.id), sorted(writes)))
+        else:
+            rr.fail("summary-extra-fields:%s" % shortfn(b.id), "`%s` also writes %s of the in-memory summary" % (shortfn(b.id), sorted(writes - al)), where=b.span)
     # reload on start
     wp = P.require(WT + "with_proxy::{closure#0}")
     sends = sites_containing(wp, "UnboundedSender", "::send")
@@ -646,7 +687,7 @@ def rule_PL7(ctx, tier):
             rr.ok("%s: Misbehaving iff proof, else TemporaryUnreachable iff pending" % shortfn(ld), sample={"rule": "PL7", "loader": ld, "status writes": got})
         else:
             rr.fail("loader-status:%s" % shortfn(ld), "`%s` reconstructs the status as %s (expected Misbehaving iff a proof row exists, else TemporaryUnreachable iff pending non-empty)" % (shortfn(ld), got), where=b.span)
-    rr.require_floor(21, "PL7 instances")
+    rr.require_floor(24, "PL7 instances")
     return rr
 
 
